@@ -189,6 +189,10 @@ func RandomStruct(r *Rand, c *TypeCfg, depth int) *schema.Struct {
 		f := &schema.Field{ID: id, Req: req, T: RandomType(r, c, depth, req)}
 		if c.NoCopy && (f.T.K == schema.String || f.T.K == schema.Binary) && r.Bool() {
 			f.NoCopy = true
+			if r.Chance(1, 3) {
+				// the option also applies when the type descriptor is left empty
+				f.Tag = fmt.Sprintf(`frugal:"%d,%s,,nocopy"`, f.ID, f.Req)
+			}
 		}
 		s.Fields = append(s.Fields, f)
 	}
